@@ -72,6 +72,10 @@ def gen_c10(rng, tier, n):
         lines.append("read - %d" % lim)
         for _ in range(napp.get(cur, 0) // lim + 2):
             lines.append("read @next %d" % lim)
+        if rng.random() < 0.15:
+            # concurrent appenders on a fresh instance (implementation-side judge: offsets strictly increasing in log order)
+            lines.append("use 7")
+            lines.append("raceappend %d %d" % (rng.randint(2, 6), rng.choice([20, 60, 150])))
         cases.append(lines)
     return cases
 
